@@ -317,6 +317,27 @@ class _Canon(ast.NodeTransformer):
                     func=ast.Attribute(value=ast.Dict(keys=[], values=[]), attr="fromkeys", ctx=ast.Load()),
                     args=[_copy.deepcopy(it0), v], keywords=[])], keywords=[])
                 return ast.fix_missing_locations(ast.copy_location(ast.Expr(value=call), node))
+        # for k in d: v = d[k]; ...   ->   for k, v in d.items(): ...
+        if isinstance(node.target, ast.Name) and not node.orelse and len(node.body) >= 2 and _simple_ref(it0) and \
+                not isinstance(it0, ast.Constant) and isinstance(node.body[0], ast.Assign) and \
+                len(node.body[0].targets) == 1 and isinstance(node.body[0].targets[0], ast.Name) and \
+                isinstance(node.body[0].value, ast.Subscript) and \
+                ast.unparse(node.body[0].value.value) == ast.unparse(it0) and \
+                isinstance(node.body[0].value.slice, ast.Name) and node.body[0].value.slice.id == node.target.id:
+            k, v, dt = node.target.id, node.body[0].targets[0].id, ast.unparse(it0)
+            rest = node.body[1:]
+            clash = any(isinstance(n, ast.Name) and n.id in (k, v) and isinstance(n.ctx, (ast.Store, ast.Del))
+                        for st in rest for n in ast.walk(st)) or k == v
+            touched = any(isinstance(n, (ast.Subscript, ast.Attribute)) and isinstance(n.ctx, (ast.Store, ast.Del))
+                          and ast.unparse(n).startswith(dt) for st in rest for n in ast.walk(st))
+            if not clash and not touched:
+                import copy as _copy
+                node.target = ast.Tuple(elts=[ast.Name(id=k, ctx=ast.Store()), ast.Name(id=v, ctx=ast.Store())],
+                                        ctx=ast.Store())
+                node.iter = ast.Call(func=ast.Attribute(value=_copy.deepcopy(it0), attr="items", ctx=ast.Load()),
+                                     args=[], keywords=[])
+                node.body = rest
+                return ast.fix_missing_locations(node)
         # for x in (a, b, c): body  ->  body[x := a]; body[x := b]; body[x := c]     (a, b, c names or attribute chains)
         it = node.iter
         if isinstance(it, (ast.Tuple, ast.List)) and 0 < len(it.elts) <= 8 and isinstance(node.target, ast.Name) and \
@@ -347,6 +368,14 @@ class _Canon(ast.NodeTransformer):
     def visit_UnaryOp(self, node):
         self.generic_visit(node)
         # not (a or b) -> not a and not b ;  not (a and b) -> not a or not b
+        # not (a is b) -> a is not b ; not (a == b) -> a != b ; not (a in b) -> a not in b   (and the reverse)
+        if isinstance(node.op, ast.Not) and isinstance(node.operand, ast.Compare) and len(node.operand.ops) == 1:
+            flip = {ast.Is: ast.IsNot, ast.IsNot: ast.Is, ast.Eq: ast.NotEq, ast.NotEq: ast.Eq, ast.In: ast.NotIn,
+                    ast.NotIn: ast.In}.get(type(node.operand.ops[0]))
+            if flip is not None:
+                c = node.operand
+                c.ops = [flip()]
+                return c
         if isinstance(node.op, ast.Not) and isinstance(node.operand, ast.BoolOp):
             inner = node.operand
             vals = [ast.UnaryOp(op=ast.Not(), operand=v) for v in inner.values]
@@ -581,13 +610,24 @@ def _forward_stores(fn):
         return [n for n in ast.walk(node) if isinstance(n, ast.Call) and
                 not _pure_expr(ast.Call(func=n.func, args=[], keywords=[]))]
 
+    # eq maps a local name to the field entry it equals, and "#<field path>" to the expression over locals that was
+    # just stored into that field
     def rewrite(node, eq):
         if not eq:
             return node
+        rev = {k[1:]: v for k, v in eq.items() if k.startswith("#")}
 
         class R(ast.NodeTransformer):
+            def generic_visit(self, n):
+                if rev and isinstance(n, (ast.Attribute, ast.Subscript)) and isinstance(n.ctx, ast.Load) and \
+                        _self_field_of(n) is not None:
+                    k = " ".join(ast.unparse(n).split())
+                    if k in rev:
+                        return ast.copy_location(_copy.deepcopy(rev[k]), n)
+                return super().generic_visit(n)
+
             def visit_Name(self, n):
-                if isinstance(n.ctx, ast.Load) and n.id in eq:
+                if isinstance(n.ctx, ast.Load) and n.id in eq and not n.id.startswith("#"):
                     new = _copy.deepcopy(eq[n.id])
                     for m in ast.walk(new):
                         if hasattr(m, "ctx"):
@@ -611,7 +651,12 @@ def _forward_stores(fn):
 
     def kill_field(eq, fld):
         for k in list(eq):
-            if fld is None or _self_field_of(eq[k]) == fld:
+            if k.startswith("#"):
+                p_ = k[1:]
+                if fld is None or ("self." + fld) == p_ or p_.startswith("self." + fld + "[") or \
+                        p_.startswith("self." + fld + "."):
+                    del eq[k]
+            elif fld is None or _self_field_of(eq[k]) == fld:
                 del eq[k]
 
     def effects(node, eq):
@@ -628,6 +673,23 @@ def _forward_stores(fn):
                 kill_field(eq, _self_field_of(tgt))
             if isinstance(n, ast.Call) and not _pure_expr(n):
                 eq.clear()
+            if isinstance(n, ast.Call) and isinstance(n.func, ast.Attribute) and n.func.attr in MUTATING_METHODS:
+                b = n.func.value
+                while isinstance(b, (ast.Attribute, ast.Subscript)):
+                    b = b.value
+                if isinstance(b, ast.Name):
+                    kill_name(eq, b.id)
+
+    def locals_only(v):
+        """a small pure expression over locals (no read of self): what a field holds right after `self.F = v`"""
+        if isinstance(v, (ast.Name, ast.Constant)) or not _pure_expr(v):
+            return False
+        if any(isinstance(x, ast.Name) and x.id == "self" for x in ast.walk(v)):
+            return False
+        if any(isinstance(x, (ast.Call, ast.Lambda, ast.ListComp, ast.DictComp, ast.SetComp, ast.GeneratorExp,
+                              ast.List, ast.Dict, ast.Set)) for x in ast.walk(v)):
+            return False        # the field must hold the very object the expression denotes
+        return True
 
     def loads_ok(value):
         """every read in `value` happens before any effect of it: no impure call, or just one at the top"""
@@ -661,6 +723,9 @@ def _forward_stores(fn):
                     if isinstance(t, ast.Subscript):
                         t.slice = rewrite(t.slice, eq)
                 effects(st, eq)
+                if stable(t) and isinstance(t, ast.Attribute) and isinstance(t.value, ast.Name) and \
+                        t.value.id == "self" and locals_only(v):
+                    eq["#" + " ".join(ast.unparse(t).split())] = v
                 if isinstance(t, ast.Name) and t.id not in params and stable(v) and not any(
                         isinstance(x, ast.Name) and x.id == t.id for x in ast.walk(v)):
                     eq[t.id] = v
@@ -1403,7 +1468,7 @@ def _adjacent_single_use(fn):
     ast.fix_missing_locations(fn)
 
 
-def _local_round(tree):
+def _local_round(tree, after_helpers=True):
     _Canon().visit(tree)
     tree.body = _loops_to_comprehensions(tree.body)
     ast.fix_missing_locations(tree)
@@ -1412,7 +1477,10 @@ def _local_round(tree):
             _forward_stores(n)
             _drop_dead_assignments(n)
             _inline_temporaries(n)
-            _adjacent_single_use(n)
+            if after_helpers:
+                # (before the helpers are inlined this would move `x = self._helper(..)` into an expression, where
+                # a multi-statement helper can no longer be expanded)
+                _adjacent_single_use(n)
     _Canon().visit(tree)
     tree.body = _nest_block(tree.body, False)
     for n in ast.walk(tree):
@@ -1432,7 +1500,7 @@ def canonicalise_program(trees):
             ast.fix_missing_locations(tree)
         return
     for tree in trees.values():
-        _local_round(tree)          # helpers get their own single-return form first
+        _local_round(tree, after_helpers=False)     # helpers get their own single-return form first
     inline_helpers(trees)
     for tree in trees.values():
         for _round in range(2):
